@@ -221,7 +221,7 @@ Fixpoint pev (sq : bool) (E : penv) (e : pexp) {struct e} : mval :=
       let nc := pe_size E DC in
       let X := pe_cube3 E c a in
       (* X.shape[0], X.shape[1] must be the lengths of the axes tagged DR, DC *)
-      match Nat.eqb (List.length X) nr && Nat.eqb (nrows (nth 0 X [])) nc with
+      match Nat.eqb (List.length X) nr && (Nat.eqb nr 0 || Nat.eqb (nrows (nth 0 X [])) nc) with
       | true =>
           if forallb (fun i => forallb (fun j => is_scal (pev sq (with_loop E i j) body))
                                        (seq 0 nc)) (seq 0 nr)
